@@ -32,7 +32,8 @@ func parallel(pool *Pool, seed int64, n int, f func(i int, r *rand.Rand, d *Driv
 func ask(d *Driver, op string) string {
 	s, err := d.Ask(op)
 	if err != nil {
-		os.WriteFile("/tmp/bclh-lastop.txt", []byte(op+"\n"), 0o644); fatalf("model driver: %v (op %.200s) full op in /tmp/bclh-lastop.txt", err, op)
+		os.WriteFile("/tmp/bclh-lastop.txt", []byte(op+"\n"), 0o644)
+		fatalf("model driver: %v (op %.200s) full op in /tmp/bclh-lastop.txt", err, op)
 	}
 	return s
 }
